@@ -198,6 +198,23 @@ template <class Ptr> static void waiter_body(const Sc& sc, Ptr act, sg4::Host* m
     LOG("waiter", "again clock=%.17g out=%s state=%s", now(), o2.c_str(), base->get_state_str());
   } else if (not main_done) {
     // timed out (or returned without completion): the activity must still be alive and complete at its natural date
+    double zs = sc.num("zs", 0);
+    if (zs > 0 && out == "timeout") {
+      // first another timed wait that straddles that natural date, on an exec that cannot complete: it must raise its own
+      // timeout exactly zs later; the expired timed wait must not answer it when the first activity completes
+      double s0       = now();
+      std::string o3  = "ok";
+      sg4::ExecPtr ex = sg4::this_actor::exec_init(1e30);
+      try {
+        ex->wait_for(zs);
+      } catch (const simgrid::TimeoutException&) {
+        o3 = "timeout";
+      } catch (const std::exception& e) {
+        o3 = "exc:" + exc_name(e);
+      }
+      LOG("waiter", "slept from=%.17g clock=%.17g d=%.17g out=%s exstate=%s", s0, now(), zs, o3.c_str(), ex->get_state_str());
+      ex->cancel();
+    }
     std::string o2 = "ok";
     try {
       act->wait();
